@@ -47,8 +47,8 @@ import random
 from .. import core
 from .. import nqcase
 
-LEAN_TARGETS = ["SqVerif.Props.C11"]
-PROPS_FILE = "SqVerif/Props/C11.lean"
+LEAN_TARGETS = ["SqVerif.Props.C11", "SqVerif.Props.C11Node"]
+PROPS_FILE = ["SqVerif/Props/C11.lean", "SqVerif/Props/C11Node.lean"]
 DRIVE_TARGETS = ["SqVerif.Drive.NqExec"]
 TRUSTED = [
     "model NqExec.lean (shared with C09): unit module, used physical ids, qubitList, node = tokens held / "
